@@ -2233,5 +2233,6 @@ func httpwireExtra(t *tr) string {
 	x.factories(&out)
 	x.httpwireRound3(&out)
 	x.httpwireRound4(&out)
+	x.httpwireRound6(&out)
 	return out.String()
 }
